@@ -26,7 +26,9 @@ pub struct Shared {
     pub trans_labels: Mutex<HashMap<u32, String>>,
     pub history_ids: Mutex<Vec<(u32, String)>>,
     pub root_id: Mutex<u32>,
-    pub feed: Mutex<VecDeque<String>>,
+    pub feed: Mutex<VecDeque<Event>>,
+    /// every dequeued event with all its fields, in the order of the IntDeq/ExtDeq records
+    pub events_seen: Mutex<Vec<Event>>,
     pub last_enabled: Mutex<Vec<u32>>,
     pub violations: Mutex<Vec<String>>,
 }
@@ -49,6 +51,7 @@ impl Shared {
             history_ids: Mutex::new(Vec::new()),
             root_id: Mutex::new(0),
             feed: Mutex::new(VecDeque::new()),
+            events_seen: Mutex::new(Vec::new()),
             last_enabled: Mutex::new(Vec::new()),
             violations: Mutex::new(Vec::new()),
         })
@@ -142,8 +145,8 @@ impl Tracer for RecordingTracer {
                 let st = self.sh.start.lock().unwrap();
                 if let Some(st) = st.as_ref() {
                     if st.mode == Mode::FedAtIdle {
-                        if let Some(name) = self.sh.feed.lock().unwrap().pop_front() {
-                            let _ = st.sender.send(Box::new(Event::new_simple(&name)));
+                        if let Some(ev) = self.sh.feed.lock().unwrap().pop_front() {
+                            let _ = st.sender.send(Box::new(ev));
                         }
                     }
                 }
@@ -168,12 +171,14 @@ impl Tracer for RecordingTracer {
 
     fn event_internal_received(&self, what: &Event) {
         self.sh.log.lock().unwrap().push(Rec::IntDeq(what.name.clone()));
+        self.sh.events_seen.lock().unwrap().push(what.clone());
     }
 
     fn event_external_send(&self, _what: &Event) {}
 
     fn event_external_received(&mut self, what: &Event) {
         self.sh.log.lock().unwrap().push(Rec::ExtDeq(what.name.clone()));
+        self.sh.events_seen.lock().unwrap().push(what.clone());
     }
 
     fn trace_enter_state(&self, s: &State) {
@@ -222,6 +227,8 @@ pub struct RunResult {
     pub timed_out: bool,
     pub tracer_violations: Vec<String>,
     pub state_order: Vec<String>,
+    pub events_seen: Vec<Event>,
+    pub session_id: u32,
 }
 
 pub fn parse(xml: &str) -> Result<Box<Fsm>, String> {
@@ -259,7 +266,13 @@ fn prepare(fsm: &Fsm, sh: &Shared) -> Vec<String> {
 }
 
 /// Runs `fsm` with the given host events; returns the projected trace.
-pub fn run_session(mut fsm: Box<Fsm>, events: &[String], mode: Mode, timeout: Duration) -> RunResult {
+pub fn run_session(fsm: Box<Fsm>, events: &[String], mode: Mode, timeout: Duration) -> RunResult {
+    let evs: Vec<Event> = events.iter().map(|e| Event::new_simple(e)).collect();
+    run_session_events(fsm, &evs, mode, timeout)
+}
+
+/// Same, with complete host events (fields, params, content).
+pub fn run_session_events(mut fsm: Box<Fsm>, events: &[Event], mode: Mode, timeout: Duration) -> RunResult {
     let sh = Shared::new();
     let state_order = prepare(&fsm, &sh);
     fsm.tracer = Box::new(RecordingTracer { sh: sh.clone() });
@@ -275,7 +288,7 @@ pub fn run_session(mut fsm: Box<Fsm>, events: &[String], mode: Mode, timeout: Du
         match mode {
             Mode::PreQueued => {
                 for e in events {
-                    let _ = session.sender.send(Box::new(Event::new_simple(e)));
+                    let _ = session.sender.send(Box::new(e.clone()));
                 }
                 let _ = session.sender.send(Box::new(Event::new_simple(CANCEL)));
             }
@@ -284,7 +297,7 @@ pub fn run_session(mut fsm: Box<Fsm>, events: &[String], mode: Mode, timeout: Du
                 for e in events {
                     f.push_back(e.clone());
                 }
-                f.push_back(CANCEL.to_string());
+                f.push_back(Event::new_simple(CANCEL));
             }
         }
         *st = Some(StartInfo { global: session.global_data.clone(), sender: session.sender.clone(), mode });
@@ -320,7 +333,8 @@ pub fn run_session(mut fsm: Box<Fsm>, events: &[String], mode: Mode, timeout: Du
     if let Ok(mut st) = executor.state.lock() {
         st.sessions.clear();
     }
-    RunResult { trace, final_cfg, panicked, timed_out, tracer_violations, state_order }
+    let events_seen = sh.events_seen.lock().unwrap().clone();
+    RunResult { trace, final_cfg, panicked, timed_out, tracer_violations, state_order, events_seen, session_id: session.session_id }
 }
 
 /// First difference between two traces, rendered with some context.
